@@ -5,10 +5,6 @@
 From V Require Import Base.Util Gql.Ast C03.Model C03.Spec C03.Witness.
 From V Require C01.Model.
 
-(** the narrowest computable guard under which the statement is expected to hold *)
-Definition every_fragment_spread (D : opdoc) : bool :=
-  forallb (fun f => existsb (fun o => mem (iname (fr_name f)) (reachable_from D (op_sel o))) (doc_ops D)) (doc_fragdefs D).
-
 Definition tree_ok (S : tsdoc) (D : opdoc) (d : execdef) : bool :=
   match d with
   | DImport _ => true
@@ -19,7 +15,7 @@ Definition generate_safe : Prop :=
   forall S D,
     schema_wf S = true -> schema_closed S = true ->
     check_operation_document S D = [] ->
-    every_fragment_spread D = true ->          (* known finding: never-spread fragments are not validated *)
+    every_fragment_spread D = true ->          (* variable uses inside never-spread fragments are not validated *)
     fields_can_merge_ok S D = true ->          (* Field Selection Merging: not implemented by check *)
     forallb (tree_ok S D) (od_defs D) = true.
 
@@ -29,11 +25,11 @@ Example generate_safe_instance :
   /\ fields_can_merge_ok w_schema_0 w_doc_14 = true /\ forallb (tree_ok w_schema_0 w_doc_14) (od_defs w_doc_14) = true.
 Proof. repeat split; vm_compute; reflexivity. Qed.
 
-(** ... and each guard is necessary: check accepts these documents and the generator model panics on them *)
-Example unspread_fragment_panics :
-  check_operation_document w_schema_0 w_doc_0 = [] /\ every_fragment_spread w_doc_0 = false
-  /\ forallb (tree_ok w_schema_0 w_doc_0) (od_defs w_doc_0) = false.
-Proof. repeat split; vm_compute; reflexivity. Qed.
+(** ... never-spread fragments are validated by check since /repo commit c67e45e (their variable uses excepted): the
+    former witness is rejected now; Field Selection Merging is still not checked, and the generator model panics *)
+Example unspread_fragment_now_rejected :
+  check_operation_document w_schema_0 w_doc_0 <> [] /\ every_fragment_spread w_doc_0 = false.
+Proof. split; [vm_compute; discriminate | vm_compute; reflexivity]. Qed.
 
 Example unmergeable_fields_panic :
   check_operation_document w_schema_0 w_doc_19 = [] /\ every_fragment_spread w_doc_19 = true
